@@ -150,6 +150,9 @@ pub enum Op {
     /// (kind 0 = exists_impl, 1 = all, 2 = not, 3 = and, 4 = or, 5 = var): nothing to compare, it
     /// only makes the environment's call counters large (2^16 in any tier, 2^32 in the thorough one)
     Spin(u8, u64),
+    /// `deep-diagram` (U world): two conjunction chains over this many variables that differ only in
+    /// the polarity of the deepest literal, built in the shared environment and in a fresh one
+    DeepChain(u16),
     /// a blanked step (left behind by minimisation so that step numbers stay stable)
     Nop,
     // U-world: BDDSet clients
@@ -208,6 +211,7 @@ impl Op {
             Op::Redo(_) => "redo".into(),
             Op::Bulk(..) => "table-growth".into(),
             Op::Spin(..) => "call-count".into(),
+            Op::DeepChain(_) => "deep-diagram".into(),
             Op::Nop => "nop".into(),
             Op::SetNew => "set.with_env".into(),
             Op::SetFromElement(_) => "set.from_element".into(),
@@ -311,6 +315,13 @@ pub struct EnvPlan {
     /// and the diagrams derived from them references `True` / `False`)
     #[serde(default = "default_true")]
     pub hold_leaves: bool,
+    /// C19, `mixed-widths`: non-zero = every second set of the run has this width instead of
+    /// `set_bits` (sets of different widths share the environment; they are never combined)
+    #[serde(default)]
+    pub set_bits2: usize,
+    /// the shared environment is made by `BDDEnv::default()` instead of `BDDEnv::new()`
+    #[serde(default)]
+    pub env_default: bool,
     pub steps: Vec<Step>,
 }
 
@@ -792,6 +803,17 @@ pub fn gen_plan(rng: &mut Prng, property: &str, tier: &Tier) -> EnvPlan {
         }
     }
 
+    // `deep-diagram` probe (C02 / C13): diagrams far taller than anything the truth-table oracles reach
+    if (property == "C02" || property == "C13") && world == WorldKind::U && rng.chance(1, 300) {
+        steps.push(Step {
+            sym_fault: None,
+            foreign: 0,
+            client: 0,
+            keep: false,
+            op: Op::DeepChain(*rng.pick(&[63u16, 64, 65, 100, 127, 128, 129, 130, 140, 200, 255, 256, 257, 300])),
+        });
+    }
+
     // `call-count` probe (C13): a quantification of a live diagram, then so many cheap
     // quantifier calls that a 16-bit (thorough tier, rarely: 32-bit) call counter of the
     // environment comes round, then the quantification of the SAME diagram over ANOTHER variable
@@ -870,6 +892,13 @@ pub fn gen_plan(rng: &mut Prng, property: &str, tier: &Tier) -> EnvPlan {
         clients,
         ids,
         hold_leaves,
+        env_default: rng.chance(1, 4),
+        set_bits2: if property == "C19" && rng.chance(1, 12) {
+            let w = *rng.pick(&[1usize, 2, 3, 4, 5, 6, 7, 8, 16, 33, 64, 70]);
+            if w == set_bits { 0 } else { w }
+        } else {
+            0
+        },
         steps,
     }
 }
@@ -1245,6 +1274,8 @@ pub struct Exec<'p, W: World> {
     stats: Stats,
     trace: Vec<u64>,
     states: Vec<u64>,
+    /// what was wrong with the environment right after construction (I4), if anything
+    initial: Option<String>,
     cancelled_before: bool,
     /// C13: an operand that lives outside the environment has been handed to an operation, so
     /// registered nodes may legitimately have children that are not the registered allocation
@@ -1466,8 +1497,25 @@ impl<'p, W: World> Exec<'p, W> {
             names: plan.names.iter().map(|s| Rc::new(s.clone())).collect(),
             ids: plan.ids.clone(),
         });
-        let env = Rc::new(BDDEnv::new());
+        let env: Rc<BDDEnv<W::S>> = Rc::new(if plan.env_default { BDDEnv::default() } else { BDDEnv::new() });
+        // before anything is asked of it, an environment holds exactly the two leaves
+        let initial = {
+            let t = env.nodes.borrow();
+            if t.contains_key(&BDD::True) && t.contains_key(&BDD::False) && t.len() == 2 && env.size() == 2 {
+                None
+            } else {
+                Some(format!(
+                    "a brand-new environment ({}) holds {} node(s), size() = {}, true leaf {}, false leaf {}",
+                    if plan.env_default { "BDDEnv::default()" } else { "BDDEnv::new()" },
+                    t.len(),
+                    env.size(),
+                    if t.contains_key(&BDD::True) { "present" } else { "missing" },
+                    if t.contains_key(&BDD::False) { "present" } else { "missing" }
+                ))
+            }
+        };
         let mut ex = Self {
+            initial,
             env2: BDDEnv::new(),
             plan,
             n: plan.nvars,
@@ -2130,6 +2178,62 @@ impl<'p, W: World> Exec<'p, W> {
                 }
                 Ok(true)
             }
+            Op::DeepChain(len) => {
+                let len = *len as usize;
+                let names = self.names.clone();
+                let prop = self.prop().to_string();
+                let build = |env: &BDDEnv<W::S>, negate_last: bool| -> Rc<BDD<W::S>> {
+                    let mut acc = env.mk_const(true);
+                    for i in (0..len).rev() {
+                        let mut lit = env.var(W::sym(&names, i));
+                        if negate_last && i == len - 1 {
+                            lit = env.not(lit);
+                        }
+                        acc = env.and(lit, acc);
+                    }
+                    acc
+                };
+                rsbdd::verif_hooks::set_budget(Some(1 << 24));
+                let env = Rc::clone(&self.env);
+                let r = catch(|| {
+                    let fresh = BDDEnv::<W::S>::new();
+                    let a = build(&env, false);
+                    let b = build(&env, true);
+                    let a2 = build(&fresh, false);
+                    let dup = env.duplicates(Rc::clone(&a));
+                    (a == b, a.get_hash() == b.get_hash(), a == a2, a.get_hash() == a2.get_hash(), dup, a.node_list().len())
+                });
+                rsbdd::verif_hooks::set_budget(None);
+                bump(&mut self.stats, "fault.deep-diagram");
+                self.faults_fired += 1;
+                match r {
+                    Caught::Ok((eq_ab, hash_ab, eq_aa, hash_aa, dup, nodes)) => {
+                        self.trace.push(mix(&[step_no as u64, nodes as u64, dup as u64]));
+                        if prop == "C02" {
+                            if eq_ab {
+                                return Err(viol("C02", "K3", "deep-diagram", step_no, format!("two conjunction chains over {len} variables that differ in the deepest literal compare equal")));
+                            }
+                            if hash_ab {
+                                return Err(viol("C02", "K5", "deep-diagram", step_no, format!("two conjunction chains over {len} variables that differ only in the deepest literal have the same 64-bit hash")));
+                            }
+                            if !eq_aa || !hash_aa {
+                                return Err(viol("C02", "K3", "deep-diagram", step_no, format!("the same conjunction chain over {len} variables built in two environments: `==` is {eq_aa}, hashes equal is {hash_aa}")));
+                            }
+                        } else if prop == "C13" && !self.outside_used && dup != 0 {
+                            return Err(viol("C13", "I3", "deep-diagram", step_no, format!("duplicates() of an interned conjunction chain over {len} variables ({nodes} nodes) is {dup}, not 0")));
+                        }
+                    }
+                    Caught::Panic(m, l) => {
+                        let (p, o) = if prop == "C02" { ("C02", "K2") } else { ("C13", "I2") };
+                        if prop == "C02" || prop == "C13" {
+                            return Err(viol(p, o, &format!("deep-diagram@{l}"), step_no, format!("building / comparing conjunction chains over {len} variables panicked: {m} @ {l}")));
+                        }
+                    }
+                    Caught::Budget => self.budget_hit = true,
+                    Caught::Cancel => {}
+                }
+                Ok(true)
+            }
             Op::Spin(kind, count) => {
                 let names = self.names.clone();
                 let env = Rc::clone(&self.env);
@@ -2246,9 +2350,18 @@ impl<'p, W: World> Exec<'p, W> {
         let plan_bytes = serde_json::to_vec(plan).expect("plan serialises");
         out.plan_digest = digest_bytes(&plan_bytes);
         let mut violation: Option<Violation> = None;
+        if let (Some(what), "C13") = (&self.initial, self.prop()) {
+            violation = Some(viol("C13", "I4", "new-environment", 0, what.clone()));
+        }
+        if plan.env_default {
+            bump(&mut self.stats, "fault.env-default");
+        }
         let mut ticks = 0u64;
         let started = std::time::Instant::now();
         for (i, step) in plan.steps.iter().enumerate() {
+            if violation.is_some() {
+                break;
+            }
             self.cur_step = i;
             // safety net only (never reached on the unchanged tree): a run that has been going for
             // minutes of wall-clock time is abandoned unjudged instead of stalling the batch
@@ -2832,7 +2945,7 @@ pub fn plan_valid(plan: &EnvPlan) -> bool {
 
 pub fn execute(plan: &EnvPlan) -> RunOutcome {
     rsbdd::verif_hooks::reset();
-    if plan.world == WorldKind::U && plan.set_bits > 64 {
+    if plan.world == WorldKind::U && (plan.set_bits > 64 || plan.set_bits2 != 0) {
         return super::widesets::execute(plan);
     }
     match plan.world {
